@@ -9,10 +9,10 @@ from tools import dfir, vlib
 class C22(dfir.DfirSpec):
     tag = "C22"
     props_vo = "theories/Props/C22.vo"
-    theorems = ["C22_perturbation_operators", "C22_identity_insert", "C22_pull_push", "C22_realisation_is_model", "C22_partition_shape"]
+    theorems = ["C22_perturbation_operators", "C22_identity_insert", "C22_pull_push", "C22_realisation_is_model", "C22_partition_shape", "C22_gadgets", "C22_splice_preserves"]
     modes = ("ticks", "avail")
     level = "other"
-    explanation = "Not category proof: that inserting identity / tee+null / union+null operators into the flat graph preserves its denotation is proved only at the operator level (C22_perturbation_operators, C22_identity_insert), not as a rewrite of whole flat graphs; compile/fail agreement (iii) is only probed. Proved: (i) pull realisation = push realisation for fold, persist, fold_keyed, sort_by_key (C22_pull_push, C22_realisation_is_model; the single-closure operators hand one closure to the pull or push combinator, C11/C12); (ii) subgraph shape: any two well-formed partitions of the same flat graph compute the same outputs, states and tick counts over every history (C22_partition_shape, from the transparency theorem of C23), with well-formedness checked executably on every variant's real partition."
+    explanation = 'Not category proof: (iii) compile/fail agreement is not a Coq theorem here (every catalogue variant compiles, the formerly rejected variant is a regression probe; that splicing non-delayed pass-through nodes preserves same-tick cycles both ways, which with C19_rejects_iff_cycle would give it, is not proved); and the link between a concrete lowered variant and `splice` of its base is up to renaming of wire / operator ids, which is not formalised. Proved: (i) pull = push realisation for fold, persist, fold_keyed, sort_by_key (C22_pull_push, C22_realisation_is_model); (ii) every well-formed partition of a flat graph computes its denotation (C22_partition_shape), the three gadgets of the perturbation grammar -- identity, tee+null, union+null -- are pass-throughs (C22_gadgets) and splicing any pass-through gadget into any flat graph preserves sink outputs, tick counts and the states of the original operators over every history (C22_splice_preserves).'
     assumptions = [
         "the operator models do not distinguish the pull and push realisations of a write_fn; equality of the two "
         "realisations and of different partitions is tested (variant against variant, and each variant against the "
@@ -63,8 +63,9 @@ class C22(dfir.DfirSpec):
         p = dfir.catalogue()[case["progs"][0]]
         runs = "[" + "; ".join("(prog_%d, (%s, [%s]))" % (i, dfir.g_outs(r["outs"]), "; ".join(str(x) for x in r["obs"]))
                                for i, r in zip(case["progs"], res["runs"])) + "]"
-        return "c22_chk %s %s %s %s" % ("true" if case["mode"] == "avail" else "false",
-                                        dfir.g_bools(p.sinks), dfir.g_hist(case["hist"]), runs)
+        ok = " && ".join("delays_agree graph_%d" % i for i in case["progs"])
+        return "vand (%s) (c22_chk %s %s %s %s)" % (ok, "true" if case["mode"] == "avail" else "false",
+                                                    dfir.g_bools(p.sinks), dfir.g_hist(case["hist"]), runs)
 
     def distribution(self, cases, results):
         d = {"groups": {}, "modes": {}, "ticks": {}, "variants_per_group": {}, "impl_failures": 0,
